@@ -38,7 +38,8 @@ class NumEnv:
         self.pi = math.pi
 
     def const(self, x):
-        return float(x)
+        from fractions import Fraction
+        return float(Fraction(x)) if isinstance(x, str) else float(x)
 
     def _get(self, name):
         if name not in self.values:
